@@ -82,11 +82,14 @@ def queue_invariant(c: Ctx) -> list[str]:
         why.append(f'event_queue is reassigned in {w.unit.qualname}: {U(w.node)[:60]}')
     for w in ws:
         if w.how == 'assign' and w.unit.key == st.key and isinstance(w.node, ast.Assign) and isinstance(w.node.value, ast.Call) and 'CleanShutdownQueue' in U(w.node.value.func):
-            gi = q.enclosing(w.node, (ast.If,))
-            while gi is not None and 'event_queue' not in U(gi.test):
-                gi = q.enclosing(gi, (ast.If,))
-            if gi is None or U(gi.test) != f'{U(w.base)}.event_queue is None':
-                why.append(f'the queue is (re)created under `{U(gi.test)[:60] if gi is not None else "no guard"}` instead of only when it is None: a queue that may still hold events can be replaced')
+            g0 = c.cfg(st)
+            atom0 = f'{U(w.base)}.event_queue'
+            f0 = Facts(lambda a: a == atom0, cg=c.cg, unit=st)
+            for n0 in g0.nodes_of(q.stmt_of(w.node)):
+                if q.guard_search(g0, n0, f'{atom0} is None', f0) is not None:
+                    gi = q.enclosing(w.node, (ast.If,))
+                    why.append(f'the queue is (re)created under `{U(gi.test)[:60] if gi is not None else "no guard"}` instead of only when it is None: a queue that may still hold events can be replaced')
+                    break
     ci = c.prog.cls('CleanShutdownQueue')
     for m in ('__bool__', '__len__'):
         if m in ci.methods:
